@@ -292,6 +292,17 @@ def _valid_expr(src):
         return False
 
 
+def gen_valid_expr(rng):
+    """gen_expr composes source text and can produce text that is not an expression (12345678901234.value: an attribute of
+    an unparenthesised int literal); such text is no input of the converters - draw again (a harness exception here
+    used to surface as a broken correspondence in the thorough tier)"""
+    for _ in range(50):
+        src = gen_expr(rng)
+        if _valid_expr(src):
+            return src
+    return "foo"
+
+
 # ------------------------------------------------------------------ generation: classes
 VALUES = ["5", "0", "-1", "-5", "2.5", "-2.5", "'mnist'", "\"~/tensorflow_datasets\"", "None", "True", "False", "(1, 2)",
           "[1]", "{}", "[]", "()", "set()", "np.array([1])", "'a.b'", "(np.empty(0), np.empty(0))", "foo", "a.b",
@@ -553,7 +564,7 @@ def gen_snt(rng):
     elif r < 0.45:
         p["default"] = {"s": rng.choice(["'quoted'", '"dq"', "None", "```(None)```", "```[1, 2]```", "```x```", "'", "''"])}
     elif r < 0.80:
-        p["default"] = {"e": rng.choice(VALUES + [gen_expr(rng) for _ in range(3)]), "fold": rng.random() < 0.3}
+        p["default"] = {"e": rng.choice(VALUES + [gen_valid_expr(rng) for _ in range(3)]), "fold": rng.random() < 0.3}
     elif r < 0.88:
         p["default"] = {"o": rng.choice(["[]", "()", "{}", "set()"])}
     return {"name": name, "param": p, "infer_type": rng.random() < 0.3, "word_wrap": rng.random() < 0.6}
